@@ -203,10 +203,11 @@ def run(prog, chk):
                 t -= h
         return tuple(out)
     nsc = 0
-    for pubt in range(0, 10):
+    deep = getattr(chk, "tier", "quick") == "thorough"
+    for pubt in range(0, 40 if deep else 10):
         valid = {ref_path(pubt, t): t for t in range(pubt + 1)}
         wrong = []
-        for length in range(0, 5):
+        for length in range(0, 7 if deep else 5):
             for dirs in itertools.product((0, 1), repeat=length):
                 # the source reads element length-1 first: hand out the directions in reading (top-down) order
                 paths = caltime(length, pubt, list(dirs))
@@ -221,7 +222,7 @@ def run(prog, chk):
                 if not ok:
                     wrong.append((dirs, want, q.ret, st))
         chk.ob("C03.caltime", "calculateCalendarAggregationTime[publication time %d]" % pubt, not wrong,
-               "all 31 left/right sequences of up to 4 links: accepted exactly when the sequence is the path of a leaf of the calendar tree for "
+               "all left/right sequences of up to %d links: accepted exactly" % (6 if deep else 4) + " when the sequence is the path of a leaf of the calendar tree for "
                "this publication time, with that leaf's time" + ("" if not wrong else
                "; WRONG for %d sequences, e.g. top-down %s (1 = left link): reference %s, source returns %s and stores %s"
                % (len(wrong), list(wrong[0][0]), "time %d" % wrong[0][1] if wrong[0][1] is not None else "not a path of this tree (error required)",
